@@ -290,7 +290,7 @@ Qed.
 (* ------------------------------------------------------------------ the theorems *)
 Theorem step_tinv : forall s t s' r L, Inv s L -> TInv s L -> lstep s t = Some (s', r) ->
   exists X, Inv s' (L ++ X) /\ TInv s' (L ++ X) /\
-    (X = [] \/ exists th nd tl, nth_error (s_thr s) t = Some th /\ lt_pc th = QeCasLink nd tl /\ n_next (hget (s_heap s) tl) = 0 /\ X = [nd]).
+    (X = [] \/ exists th nd tl, nth_error (s_thr s) t = Some th /\ lt_pc th = QeCasLink nd tl /\ n_next (hget (s_heap s) tl) = 0%N /\ X = [nd]).
 Proof.
   intros s t s' r L HI HT Hs. exists (linkX s t).
   split; [eapply step_inv_ext; eauto|]. split; [eapply step_tinv_only; eauto|].
@@ -298,9 +298,9 @@ Proof.
   right. exists th, nd, tl. auto.
 Qed.
 
-Lemma tinv_init progs : TInv (linit progs) [1].
+Theorem tinv_init : forall progs, TInv (linit progs) [1%N].
 Proof.
-  split; cbn [linit s_tail s_thr g_deq].
+  intros progs. split; cbn [linit s_tail s_thr g_deq].
   - exists O. split; [reflexivity|cbn [length]; lia].
   - intros t th Hn. rewrite nth_error_map in Hn. destruct (nth_error progs t); [|discriminate].
     injection Hn as <-. exact I.
